@@ -418,6 +418,10 @@ class ValGen(Gen):
             cnt = r.randrange(0, 4) if n == "TS" else max(0, int(a[0][0]) + r.choice([0, 0, 0, 0, 1, -1]))
             if e[0] in TA_OF and r.random() < 0.6:
                 cls = TA_OF[e[0]] if r.random() < 0.7 else None
+                if cls is None and e[0] in INT_KINDS:
+                    # a foreign class for an integer element kind: not Float32Array, whose stores would round the
+                    # internalized integers (outside the model: Float32Array stores are assumed exact)
+                    cls = r.choice(["i8", "i16", "i32", "u8", "u16", "u32", "f64"])
                 s = self.js_ta(cls)
                 if n == "TA":                      # force the element count
                     nm, args = parse_sx(s)
@@ -1299,8 +1303,8 @@ def rt_expected(T, v):
             return x if x[0] == "nil" else ("sl", [go(a[0], y) for y in x[1]])
         if n == "TA":
             return ("ar", [go(a[1], y) for y in x[1]])
-        if n == "TT":
-            return ("st", [go(a[2 * i + 1], y) for i, y in enumerate(x[1])])
+        if n == "TT":     # unexported fields do not travel: they keep their (zero) value
+            return ("st", [go(a[2 * i + 1], y) if a[2 * i][0][0] == "x" else y for i, y in enumerate(x[1])])
         return x
     return show_sx(go(parse_sx(T), parse_sx(v)))
 
